@@ -162,9 +162,11 @@ def c03(prop, tier, seed):
                      + q(tier, [], [("pco", "u64", 1024), ("lz4", "u64", 1023), ("zstd", "u64", 1025), ("pco", "f64", 1024),
                                     ("pco", "u16", 4096), ("zstd", "u32", 2049)])),
     ]
-    return vec_run(prop, tier, seed, plan,
+    res = vec_run(prop, tier, seed, plan,
                    "non-trivial = length >= 3 and at least one further operation after a re-import, reset or rollback",
                    VEC_ASSUME)
+    tr = trace_vec(prop, tier, seed, [("bytes", "raw", 0), ("zerocopy", "raw", 0), ("bytes_be", "raw", 0), ("pco", "cmp", 0), ("lz4", "cmp", 0), ("zstd", "cmp", 0)])
+    return add_trace_vec(res, tr)
 
 
 @register("C07")
@@ -243,6 +245,101 @@ def c20(prop, tier, seed):
     return r
 
 
+# ----------------------------------------------------------------------------------------------
+# code -> spec: recorded executions of the real vectors validated against spec/VecTrace.tla (C03, C04)
+# ----------------------------------------------------------------------------------------------
+VECTRACE_CFG = """SPECIFICATION TraceSpec
+CONSTANTS
+  Kind = "%s"
+  K = %d
+  PP = 2
+  MaxLen = 30
+  MaxStamp = 70
+  Depth = 1000000
+  Dev = %s
+  Ops = {"push", "truncate", "update", "delete", "fill", "write", "reimport", "reset", "commit", "rollback", "rollback_before"}
+  HistK = 0
+CHECK_DEADLOCK FALSE
+INVARIANT ViewEq
+INVARIANT MustOk
+INVARIANT Done
+"""
+
+
+def trace_vec(prop, tier, seed, combos):
+    """combos: list of (format, kind, K). Returns dict like trace_raw."""
+    known_ids = vlib.all_known_devs()
+    devs = sorted(known_ids & {"D2", "D3", "D4", "D6", "D13"})
+    st = "{" + ", ".join('"%s"' % x for x in devs) + "}"
+    runs, ops = q(tier, (4, 200), (20, 400))
+    wd = vlib.scratch_dir("vectrace")
+    out = {"events": 0, "recordings": 0, "states": 0, "violations": [], "known": [], "tagged_cut": 0, "per_format": {}}
+    try:
+        jobs = []
+        for i, (fmt, kind, K) in enumerate(combos):
+            f = os.path.join(wd, f"t{i}.ndjson")
+            vlib.run_vh(["vecrecord", "--format", fmt, "--k", str(K), "--seed", str(seed * 100 + i), "--runs", str(runs), "--ops", str(ops), "--out", f])
+            jobs.append((fmt, kind, K, f))
+        # binding self-test: one element of one observation changed -> rejected at that line
+        fmt0, kind0, K0, f0 = jobs[0]
+        lines = open(f0).read().splitlines()
+        idx = next(i for i, l in enumerate(lines) if i > 5 and json.loads(l).get("obs", {}).get("view"))
+        ev = json.loads(lines[idx]); ev["obs"]["view"][0] += 1
+        bad = os.path.join(wd, "corrupt.ndjson")
+        open(bad, "w").write("\n".join(lines[:idx] + [json.dumps(ev)] + lines[idx + 1:idx + 3]) + "\n")
+        def val(kind, K, f, w):
+            return vlib.run_tlc("VecTrace", VECTRACE_CFG % (kind, K, st), w, 1, 3000, emit_prefixes=("MISMATCH", "FINISHED"), extra_env={"TRACE": f, "JAVA_TOOL_OPTIONS": "-Xss512m"})
+        with cf.ThreadPoolExecutor(8) as ex:
+            fb = ex.submit(val, kind0, K0, bad, os.path.join(wd, "wbad"))
+            futs = [(j, ex.submit(val, j[1], j[2], j[3], os.path.join(wd, f"w{i}"))) for i, j in enumerate(jobs)]
+            rb = fb.result()
+            mm = [json.loads(x) for x in rb["emitted"]["MISMATCH"]]
+            if not mm or mm[0][0] != idx + 1:
+                raise ToolError("vector trace binding self-test: a changed element at line %d was not rejected there (%s)" % (idx + 1, mm[:1]))
+            out["selftest"] = "a recording with one element of one observation changed is rejected at exactly that line"
+            for (fmt, kind, K, f), fu in futs:
+                r = fu.result()
+                recs = open(f).read().splitlines()
+                if r["violated"]:
+                    inv = r["violated"]
+                    if "ViewEq" in inv or "MustOk" in inv:
+                        out["violations"].append({"property": prop, "kind": "trace-invariant", "spec": "VecTrace", "format": fmt, "K": K, "what": inv})
+                        continue
+                    raise ToolError("vector trace validation failed (%s K=%d): %s" % (fmt, K, inv))
+                if not r["emitted"]["FINISHED"]:
+                    raise ToolError("vector trace validation did not finish (%s K=%d): %s" % (fmt, K, "\n".join(r["tail"][-6:])))
+                out["events"] += len(recs); out["recordings"] += runs; out["states"] += r["distinct"]
+                pf = out["per_format"].setdefault(f"{fmt}/K={K}", {"events": 0, "mismatches_after_known_deviation": 0})
+                pf["events"] += len(recs)
+                for m in (json.loads(x) for x in r["emitted"]["MISMATCH"]):
+                    line = json.loads(recs[m[0] - 1])
+                    start = max(j for j in range(m[0]) if json.loads(recs[j]).get("op") == "begin")
+                    history = ["%s(%s)" % (e["op"], ",".join(map(str, e.get("args", [])))) for e in map(json.loads, recs[start + 1:m[0]])]
+                    if m[3]:
+                        out["tagged_cut"] += 1; pf["mismatches_after_known_deviation"] += 1
+                        continue
+                    out["violations"].append({"property": prop, "kind": "trace", "spec": "VecTrace", "format": fmt, "K": K, "line": m[0],
+                                              "what": "after %s the real vector shows %s (result %s); no action of the specification explains it from %s"
+                                                      % (history[-1], line.get("obs"), line.get("res"), m[2]), "history": history[-80:]})
+    finally:
+        shutil.rmtree(wd, ignore_errors=True)
+    return out
+
+
+def add_trace_vec(res, tr):
+    c = res["coverage"]
+    c["states"] += tr["states"]; c["traces_validated_against_impl"] += tr["recordings"]; c["evaluations"] += tr["events"]
+    c["code_to_spec"] = {"recordings": tr["recordings"], "events_validated": tr["events"], "per_format": tr["per_format"], "cut_after_known_deviation": tr["tagged_cut"],
+                         "binding_selftest": tr.get("selftest"),
+                         "rule": "vh vecrecord drives a real vector with seeded random histories (push, truncate, update / delete / fill on raw formats, write, flush + re-import, reset, "
+                                 "commit, rollback and rollback_before from committed states) and records every call with the observable state after it; TLC validates each recording "
+                                 "against VecTrace.tla: the step must be the model's own action for that call with the logged arguments and end in the logged observable state; ViewEq / MustOk "
+                                 "are evaluated on every state; a line no action explains in a behaviour that took no known deviation is a violation"}
+    c["rule"] += " || code->spec: recorded random histories validated by TLC against VecTrace.tla"
+    res["violations"] += tr["violations"]
+    return res
+
+
 @register("C04")
 def c04(prop, tier, seed):
     raw_ops = ["push", "truncate", "update", "delete", "reimport", "commit", "rollback", "rollback_before"]
@@ -265,10 +362,12 @@ def c04(prop, tier, seed):
         dict(kind="cmp", K=2, PP=2, MaxLen=2, MaxStamp=3, Depth=q(tier, 9, 10), ops=["push", "truncate", "commit", "rollback"], histk=0,
              replays=[("pco", "u32", 1)]),
     ]
-    return vec_run(prop, tier, seed, plan,
+    res = vec_run(prop, tier, seed, plan,
                    "non-trivial = length >= 3 and at least one further operation after a rollback (continuation after rollback)",
                    VEC_ASSUME + ["rollbacks are issued only when the contents equal the last committed state; plain write() between "
                                  "commits is outside the property's premise and not generated"])
+    tr = trace_vec(prop, tier, seed, [("bytes", "raw", 1), ("bytes", "raw", 2), ("zerocopy", "raw", 2), ("bytes_be", "raw", 2), ("pco", "cmp", 1), ("pco", "cmp", 2), ("lz4", "cmp", 2), ("zstd", "cmp", 1)])
+    return add_trace_vec(res, tr)
 
 
 @register("C16")
@@ -699,8 +798,8 @@ def conc_run(prop, tier, seed, plan):
                    "(compared with the model's) and the extent invariants are checked; non-trivial = steps of at least two threads",
            "runs": runs, "operations_checked": ops_checked, "layout_compared_at_quiescence": alloc_checked, "layout_equal": alloc_equal,
            "cut_after_permitted_divergence": cut, "behaviours_not_bound": unbound, "not_bound_example": unbound_example, "segments_replayed": segs,
-           "deviations_taken": {k: v["count"] for k, v in known_seen.items()}, "spec_sensitivity": sens, "exhaustive": tier == "thorough",
-           "replay_sampling": "quick tier replays at most 5000 behaviours per configuration (seed-dependent stride); thorough replays all",
+           "deviations_taken": {k: v["count"] for k, v in known_seen.items()}, "spec_sensitivity": sens, "exhaustive": False,
+           "replay_sampling": "quick tier replays at most 5000 behaviours per configuration (seed-dependent stride), thorough at most 40000",
            "checker_cmd": "tlc RawConc.tla ; vh concmodel"}
     return {"level": "model_checking", "coverage": cov,
             "assumptions": ["interleaving granularity: a thread runs from one lock request to the next boundary request without preemption (finer interleavings, e.g. "
@@ -749,18 +848,18 @@ def conc_free(prop, tier, seed):
 
 
 def conc_plan(tier):
-    return [dict(it, max_paths=q(tier, 5000, None)) for it in conc_plan0(tier)]
+    return [dict(it, max_paths=q(tier, 5000, 40000)) for it in conc_plan0(tier)]
 
 
 def conc_plan0(tier):
     return [
-        dict(setup="empty", sizes=[1, 2], maxops=q(tier, 2, 3), maxmaint=1, ops=["create", "append", "truncate", "flush", "compact"]),
+        dict(setup="empty", sizes=[1, 2], maxops=q(tier, 2, 3), maxmaint=1, ops=q(tier, ["create", "append", "truncate", "flush", "compact"], ["create", "append", "flush", "compact"])),
         dict(setup="hole", prelen=1, sizes=[1, 2], maxops=2, maxmaint=q(tier, 1, 2), ops=["append", "truncate", "flush", "compact"]),
         dict(setup="two", prelen=1, sizes=[1, 2], maxops=2, maxmaint=1, ops=["append", "truncate", "reader", "flush"]),
         dict(setup="hole", prelen=1, sizes=[1], maxops=3, maxmaint=1, ops=["append", "reader", "flush"]),
     ] + q(tier, [], [
         dict(setup="two", prelen=0, sizes=[1, 2, 3], maxops=2, maxmaint=2, ops=["append", "truncate", "flush", "compact"]),
-        dict(setup="hole", prelen=1, sizes=[1, 2], maxops=3, maxmaint=1, ops=["append", "reader", "flush", "compact"], timeout=3000),
+        dict(setup="hole", prelen=1, sizes=[1], maxops=3, maxmaint=1, ops=["append", "reader", "flush", "compact"], timeout=3000),
     ])
 
 
@@ -793,7 +892,7 @@ def vconc_cfg(kind, item, dev, invs, emit):
     lines = ["SPECIFICATION Spec", "CONSTANTS", f'  Kind = "{kind}"', f"  PP = {item.get('pp', 4)}", "  Batches = {" + ", ".join(map(str, item["batches"])) + "}",
              f"  MaxWrites = {item['maxw']}", "  Readers = {" + ", ".join(str(i) for i in range(1, item.get('readers', 1) + 1)) + "}", f"  MaxReads = {item['maxr']}",
              f"  ReadOps = {st(item.get('readops', ['len', 'fold']))}", f"  PreLen = {item['prelen']}", f"  Dev = {st(sorted(dev))}", f"  Depth = {item.get('depth', 90)}",
-             f"  HistK = {item.get('histk', 0)}", "VIEW HView", "CONSTRAINT DepthOK", "CHECK_DEADLOCK FALSE"]
+             f"  HistK = {item.get('histk', 0)}", f"  Reloc = {'TRUE' if item.get('reloc') else 'FALSE'}", "VIEW HView", "CONSTRAINT DepthOK", "CHECK_DEADLOCK FALSE"]
     lines += [f"INVARIANT {i}" for i in invs]
     if emit:
         lines.append("INVARIANT Emit")
@@ -902,7 +1001,7 @@ def vfree(prop, tier, seed):
 
 
 def vconc_plan(tier):
-    cap = q(tier, 3000, None)
+    cap = q(tier, 3000, 30000)
     return [
         dict(kind="raw", formats=["bytes", "zerocopy", "bytes_be"], prelen=1, batches=[1, 2, 3], maxw=2, maxr=q(tier, 2, 3), readers=1, histk=q(tier, 1, 2), max_paths=cap),
         dict(kind="cmp", formats=["pco", "lz4", "zstd"], prelen=1, batches=[1, 2, 3], maxw=2, maxr=q(tier, 2, 3), readers=1, histk=q(tier, 1, 2), max_paths=cap),
@@ -939,11 +1038,25 @@ def c09(prop, tier, seed):
     # the model must see D18 (non-vacuity): with the deviation alone the invariants break
     wd = vlib.scratch_dir("vconcsens")
     try:
-        r = vlib.run_tlc("VecConc", vconc_cfg("cmp", dict(prelen=1, batches=[1, 2, 3], maxw=1, maxr=2), ["D18"], VCONC_INVS, False), wd, 4, 600)
+        r = vlib.run_tlc("VecConc", vconc_cfg("cmp", dict(prelen=1, batches=[1, 2, 3], maxw=1, maxr=2), ["D18"], VCONC_INVS, False), os.path.join(wd, "d18"), 4, 600)
         if not r["violated"]:
             raise ToolError("VecConc with Dev={D18} should violate an invariant")
         sens = {"D18": r["violated"]}
         states += r["distinct"]; trans += r["generated"]
+        # relocation of the data region during a write (TLC only: the placement path of compressed data is not predictable, so these behaviours are not replayed;
+        # the real code is exercised on them by vecfree): the intended design must hold, D37 alone must break ReaderPrefix
+        reloc = {}
+        for kind in ("raw", "cmp"):
+            it = dict(prelen=1, batches=[1, 2, 4], maxw=2, maxr=2, reloc=True)
+            rr = vlib.run_tlc("VecConc", vconc_cfg(kind, it, [], VCONC_INVS, False), os.path.join(wd, "reloc" + kind), 4, 900)
+            if rr["violated"]:
+                raise ToolError("VecConc with relocation: the intended design (%s) violates %s" % (kind, rr["violated"]))
+            reloc[kind] = rr["distinct"]; states += rr["distinct"]; trans += rr["generated"]
+        r37 = vlib.run_tlc("VecConc", vconc_cfg("cmp", dict(prelen=1, batches=[1, 2, 4], maxw=2, maxr=2, reloc=True), ["D37"], VCONC_INVS, False), os.path.join(wd, "d37"), 4, 600)
+        if not r37["violated"] or "ReaderPrefix" not in r37["violated"]:
+            raise ToolError("VecConc with relocation and Dev={D37} should violate ReaderPrefix, TLC reports %s" % r37["violated"])
+        sens["D37"] = r37["violated"]
+        sens["relocation_design_states"] = reloc
     finally:
         shutil.rmtree(wd, ignore_errors=True)
     known_lines = []
@@ -966,8 +1079,8 @@ def c09(prop, tier, seed):
                    "|| vecfree: seeded lock-granular schedules with random batch sizes, region relocation and growth during reads, two readers, all five formats",
            "runs": runs, "operations_checked": ops_checked, "cut_after_permitted_divergence": cut, "behaviours_not_bound": unbound, "not_bound_example": unbound_example,
            "segments_replayed": segs, "deviations_taken": {k: v["count"] for k, v in known_seen.items()}, "spec_sensitivity": sens, "free_schedules": {"runs": free["runs"]} | free["tot"] |
-           {"deviations_taken": free["deviations"]}, "exhaustive": tier == "thorough",
-           "replay_sampling": "quick tier replays at most 3000 behaviours per configuration and format (seed-dependent stride); thorough replays all",
+           {"deviations_taken": free["deviations"]}, "exhaustive": False,
+           "replay_sampling": "quick tier replays at most 3000 behaviours per configuration and format (seed-dependent stride), thorough at most 30000",
            "checker_cmd": "tlc VecConc.tla ; vh vecconc ; vh vecfree"}
     return {"level": "model_checking", "coverage": cov,
             "assumptions": ["model replay: the data region is pre-sized so that every write fits (the model has no region growth); growth / relocation during reads is exercised by the "
@@ -1134,18 +1247,21 @@ def crash_model(tier):
     wd = vlib.scratch_dir("crashmodel")
     try:
         items = [
-            dict(names=["a", "b"], sizes=[1, 3], depth=q(tier, 6, 7), ops=["create", "write", "truncate", "remove", "flush", "compact"], wkinds=["append", "tw0"], pre=[]),
-            dict(names=["a", "b", "c"], sizes=[3], depth=q(tier, 5, 6), ops=["create", "write", "remove", "flush", "compact"], wkinds=["append"], pre=["a", "b"], prewrite=True),
+            dict(names=["a", "b"], sizes=[1, 3], depth=q(tier, 6, 7), ops=["create", "write", "truncate", "remove", "flush", "compact", "rflush"], wkinds=["append", "tw0"], pre=[]),
+            dict(names=["a", "b", "c"], sizes=[3], depth=q(tier, 4, 6), ops=["create", "write", "remove", "flush", "compact"], wkinds=["append"], pre=["a", "b"], prewrite=True),
         ]
         futs = []
         with cf.ThreadPoolExecutor(3) as ex:
             for i, it in enumerate(items):
                 base = (it["names"], P, it["sizes"], floor, 0, 24, it["depth"], it["ops"], it["wkinds"], it["pre"])
-                cfg = raw_cfg(*base, [], ["CrashSafe", "CrashSafeAfter", "PunchSafe", "CacheAgrees"], False, 0, it.get("prewrite", False)).replace("VIEW HView", "VIEW CView")
+                cfg = raw_cfg(*base, [], ["CrashSafe", "CrashSafeAfter", "PunchSafe", "SyncOnlySafe", "CacheAgrees"], False, 0, it.get("prewrite", False)).replace("VIEW HView", "VIEW CView")
                 futs.append((it, ex.submit(vlib.run_tlc, "RawCrash", cfg, os.path.join(wd, f"d{i}"), 5, 2400)))
             sens_base = (["a", "b"], P, [1, 3], floor, 0, 24, 6, ["create", "write", "remove", "flush"], ["append"], [])
             scfg = raw_cfg(*sens_base, ["D15"], ["CrashSafeAny"], False, 0, False).replace("VIEW HView", "VIEW CView")
             fs = ex.submit(vlib.run_tlc, "RawCrash", scfg, os.path.join(wd, "sens"), 5, 1200)
+            # a hypothetical order (compact punches first, flushes afterwards) must break the syncs-only clause
+            xbase = (["a", "b"], P, [3], floor, 0, 24, 5, ["create", "write", "truncate", "flush", "compact"], ["append"], [])
+            fx = ex.submit(vlib.run_tlc, "RawCrash", raw_cfg(*xbase, ["XPF"], ["SyncOnlySafeAny"], False, 0, False).replace("VIEW HView", "VIEW CView"), os.path.join(wd, "xpf"), 4, 1200)
             for it, fu in futs:
                 r = fu.result()
                 if r["violated"]:
@@ -1157,14 +1273,18 @@ def crash_model(tier):
             rs = fs.result()
             if not rs["violated"] or "CrashSafeAny" not in rs["violated"]:
                 raise ToolError("RawCrash with Dev={D15} should violate CrashSafeAny, TLC reports %s" % rs["violated"])
-            out["sensitivity"] = {"D15": rs["violated"]}
+            rx = fx.result()
+            if not rx["violated"] or "SyncOnlySafeAny" not in rx["violated"]:
+                raise ToolError("RawCrash with the hypothetical punch-first compact should violate SyncOnlySafeAny, TLC reports %s" % rx["violated"])
+            out["sensitivity"] = {"D15": rs["violated"], "hypothetical punch-before-flush in compact": rx["violated"]}
             out["states"] += rs["distinct"]; out["transitions"] += rs["generated"]
     finally:
         shutil.rmtree(wd, ignore_errors=True)
     out["rule"] = ("RawCrash.tla replays the I/O events of every history of RawDb.tla into a durable-image model (per-page versions since the last sync, syncs, ordered length changes, "
                    "immediate punches) and TLC checks, in every state, every crash point inside the last operation x every per-page write-back choice: recovered slots well-formed, "
-                   "pairwise disjoint, inside the file; every region untouched since the last completed flush recovers its flushed bytes (CrashSafe, CrashSafeAfter); no punch touches "
-                   "bytes that any possible image's metadata assigns to a region (PunchSafe); on the intended design (Dev={}); with D15 alone the invariant must fail")
+                   "pairwise disjoint, inside the file; every region untouched since the last completed flush recovers its flushed bytes (CrashSafe, CrashSafeAfter); with the durable "
+                   "image alone (library syncs only) every flushed region not overwritten in place recovers as flushed or as at the start of the interrupted flush (SyncOnlySafe); no punch "
+                   "touches bytes that any possible image's metadata assigns to a region (PunchSafe); on the intended design (Dev={}); D15 alone, and a hypothetical punch-first compact, must fail")
     return out
 
 
